@@ -257,3 +257,4 @@ func Catch(f func()) (panicked bool, kind string) {
 	f()
 	return false, ""
 }
+func ExactMul(on bool) {}
